@@ -256,17 +256,17 @@ fn png_rt<const KF: usize, const COLS: i64, const COLORS: i64, const BPC: i64, c
     kani::cover!(f0 == 4 && f1 == 3, "Paeth first row + Average second row reached");
     kani::cover!(true, "end reached");
 }
-// @ob id=png_c2_k1_b8 unwind=9 unwindset="key_id.0:24,key_id.1:36" stubs=fmt,vec,params:p_c2_k1_b8 tier=quick timeout=1200 mem=16 bound="PNG predictors 10-15, Columns 2, Colors 1, 8 bit (bpp 1): 2 rows x 2 bytes, every filter type per row, all data"
+// @ob id=png_c2_k1_b8 unwind=9 unwindset="key_id.0:24,key_id.1:36" stubs=fmt,vec,params:p_c2_k1_b8 tier=quick timeout=1200 mem=32 bound="PNG predictors 10-15, Columns 2, Colors 1, 8 bit (bpp 1): 2 rows x 2 bytes, every filter type per row, all data"
 fn png_c2_k1_b8<const KF: usize>() { png_rt::<KF, 2, 1, 8, 2, 1, 6>(p_c2_k1_b8::dict) }
-// @ob id=png_c2_k2_b8 unwind=9 unwindset="key_id.0:24,key_id.1:36" stubs=fmt,vec,params:p_c2_k2_b8 tier=quick timeout=1200 mem=16 bound="PNG predictors 10-15, Columns 2, Colors 2, 8 bit (bpp 2): 2 rows x 4 bytes, every filter type per row, all data"
+// @ob id=png_c2_k2_b8 unwind=9 unwindset="key_id.0:24,key_id.1:36" stubs=fmt,vec,params:p_c2_k2_b8 tier=quick timeout=1200 mem=32 bound="PNG predictors 10-15, Columns 2, Colors 2, 8 bit (bpp 2): 2 rows x 4 bytes, every filter type per row, all data"
 fn png_c2_k2_b8<const KF: usize>() { png_rt::<KF, 2, 2, 8, 4, 2, 10>(p_c2_k2_b8::dict) }
-// @ob id=png_c1_k3_b8 unwind=9 unwindset="key_id.0:24,key_id.1:36" stubs=fmt,vec,params:p_c1_k3_b8 tier=thorough timeout=1500 mem=16 bound="PNG predictors 10-15, Columns 1, Colors 3, 8 bit (bpp 3): 2 rows x 3 bytes"
+// @ob id=png_c1_k3_b8 unwind=9 unwindset="key_id.0:24,key_id.1:36" stubs=fmt,vec,params:p_c1_k3_b8 tier=thorough timeout=1500 mem=32 bound="PNG predictors 10-15, Columns 1, Colors 3, 8 bit (bpp 3): 2 rows x 3 bytes"
 fn png_c1_k3_b8<const KF: usize>() { png_rt::<KF, 1, 3, 8, 3, 3, 8>(p_c1_k3_b8::dict) }
-// @ob id=png_c2_k1_b16 unwind=9 unwindset="key_id.0:24,key_id.1:36" stubs=fmt,vec,params:p_c2_k1_b16 tier=thorough timeout=1500 mem=16 bound="PNG predictors 10-15, Columns 2, Colors 1, 16 bit (bpp 2): 2 rows x 4 bytes"
+// @ob id=png_c2_k1_b16 unwind=9 unwindset="key_id.0:24,key_id.1:36" stubs=fmt,vec,params:p_c2_k1_b16 tier=thorough timeout=1500 mem=32 bound="PNG predictors 10-15, Columns 2, Colors 1, 16 bit (bpp 2): 2 rows x 4 bytes"
 fn png_c2_k1_b16<const KF: usize>() { png_rt::<KF, 2, 1, 16, 4, 2, 10>(p_c2_k1_b16::dict) }
-// @ob id=png_c8_k1_b1 unwind=9 unwindset="key_id.0:24,key_id.1:36" stubs=fmt,vec,params:p_c8_k1_b1 tier=thorough timeout=1500 mem=16 bound="PNG predictors 10-15, Columns 8, Colors 1, 1 bit (bpp 1, packed): 2 rows x 1 byte"
+// @ob id=png_c8_k1_b1 unwind=9 unwindset="key_id.0:24,key_id.1:36" stubs=fmt,vec,params:p_c8_k1_b1 tier=thorough timeout=1500 mem=32 bound="PNG predictors 10-15, Columns 8, Colors 1, 1 bit (bpp 1, packed): 2 rows x 1 byte"
 fn png_c8_k1_b1<const KF: usize>() { png_rt::<KF, 8, 1, 1, 1, 1, 4>(p_c8_k1_b1::dict) }
-// @ob id=png_c3_k4_b4 unwind=9 unwindset="key_id.0:24,key_id.1:36" stubs=fmt,vec,params:p_c3_k4_b4 tier=thorough timeout=1500 mem=30 bound="PNG predictors 10-15, Columns 3, Colors 4, 4 bit (bpp 2, row = 6 bytes): 2 rows"
+// @ob id=png_c3_k4_b4 unwind=9 unwindset="key_id.0:24,key_id.1:36" stubs=fmt,vec,params:p_c3_k4_b4 tier=thorough timeout=1500 mem=32 bound="PNG predictors 10-15, Columns 3, Colors 4, 4 bit (bpp 2, row = 6 bytes): 2 rows"
 fn png_c3_k4_b4<const KF: usize>() { png_rt::<KF, 3, 4, 4, 6, 2, 14>(p_c3_k4_b4::dict) }
 
 // ---------------------------------------------------------------- TIFF predictor 2 (8-bit)
